@@ -373,7 +373,7 @@ func run(c *Ctx) error {
 	}
 	n := 6000
 	if c.Tier != "quick" {
-		n = 300000
+		n = 600000
 	}
 	for i := 0; i < n; i++ {
 		a := &acase{kind: kinds[r.Intn(len(kinds))], atype: 0xC001}
